@@ -5,8 +5,16 @@
    P  printer: random IR built from the real node classes, `node.format_as_spec()` vs the model's
       `print` (tokens rendered with the layout of the code); literal tokens through the model of
       `repr` (Model/PyLit.lean), compared with CPython `repr()`/`eval` directly as well
-   R  reader: the printed text (and random, mostly ill-formed, token strings) read by the REAL
-      front end (ANTLR + GrammarProcessor) vs the model's `read`; and real read(print n) vs `norm n`
+   R  reader: the printed text (and random, mostly ill-formed, token strings incl. computed brace groups) read by
+      the REAL front end (ANTLR + GrammarProcessor) vs the model's `read`; and real read(print n) vs `norm n`
+   X  regex terminals: model `printRegex` vs `Terminal.format_as_spec()`; model `evalRaw` vs the real front end on
+      the printed literal and on mutated literal texts; every instance of the oracle assumption `HexEscapeSound`
+      the proof uses (`spellSteps`) and the conclusion vs CPython `re` on a candidate set
+   Q  selectors: model `printSel`/`printTop` vs the real search classes' `format_as_spec()`; model `readTop` vs the
+      real front end on the printed text and on mutated token strings; `normSel` vs what the front end builds;
+      the re-read search object FINDS what the original finds (real `find` on real trees)
+   Y  payloads: specs with computed repetition bounds and generators: real grammar -> model rules (`crep`, `Expr`);
+      model `printG` vs `repr(grammar)`; real read of the printed text vs model `readG` / `normG`
 3. the property on the real code
    (i)   the printed text parses; (ii) same language: the re-read IR accepts exactly the same child
    token sequences (verified `matchIR`, drv_ir) on sequences sampled from both + mutations (+ all short
@@ -14,7 +22,7 @@
    and through `fandango convert` (.fan -> .fan) incl. parties, python code, generators, computed
    repetitions; regex terminals compared by what they match; words parsed by both real grammars;
    (iii) constraints: `c.format_as_spec()` re-read as `where …` gives the same verdicts (real `check`)
-Replay = the spec text.
+Replay = the spec text (regex: the pattern; selector: the term).
 """
 from __future__ import annotations
 
@@ -43,8 +51,14 @@ TRUSTED = [
     "shapes of Alternative/Concatenation/NonTerminalNode.format_as_spec, MAX_REPETITIONS) -> Generated/Print.lean",
     "shared E2 core (Model/IR.lean Matches/matchIR, Proofs/IR.lean matchIR_iff) and harness/impl/grammar_io.py",
     "CPython re.fullmatch as the regex oracle; str.isprintable as the printability oracle of repr",
-    "regex quoting (Terminal.format_as_spec for regexes), generators, computed repetition bounds and all of "
-    "constraint printing are NOT modelled: differential only",
+    "hand-written model lean/Model/PrintSearch.lean (format_as_spec of the search classes; selector sub-grammar + "
+    "SearchProcessor) and the regex part of lean/Model/PyLit.lean (_spell_regex; lexer SHORT_STRING/SHORT_BYTES + CPython "
+    "raw literal evaluation); tied by this run's correspondence (phases X, Q, Y) and by the translator's MIRRORED sources",
+    "oracle assumption PyLit.HexEscapeSound about `re` (c, \\c and \\xNN denote the same wherever a unit stands): every "
+    "instance used is checked against CPython re on a fixed candidate set; refuted for verbose patterns (open finding)",
+    "the segmentation of Python expression text into text chunks and selector occurrences is taken from the real front "
+    "end (placeholders of ast.unparse text), not modelled",
+    "the boolean/comparison/quantifier layer of constraint printing above the selectors is NOT modelled: differential only",
 ]
 
 # ------------------------------------------------------------------------------------------------
@@ -278,6 +292,8 @@ def canon(ir: Optional[list], pats: list, textual_regex: bool = False) -> Any:
         return ["nt", ir[1], ir[2], ir[3]]
     if t in ("alt", "cat"):
         return [t, [canon(k, pats, textual_regex) for k in ir[2]]]
+    if t == "crep":
+        return ["crep", canon(ir[2], pats, textual_regex), ir[3]]
     return ["rep", ir[2], canon(ir[3], pats, textual_regex), ir[4], ir[5]]
 
 
@@ -752,9 +768,14 @@ def gen_tokens(rng, cap: int) -> list:
             depth -= 1
         elif r < 0.72:
             out.append("|")
-        elif r < 0.90:
+        elif r < 0.84:
             out.append(rng.choice(["*", "+", "?", ["{", rng.randint(0, 3)], ["{", rng.randint(0, 3), rng.randint(0, 3)],
                                    ["{,", rng.choice([0, 1, 2, cap, cap + 1])]]))
+        elif r < 0.90:
+            e = ["expr", [["code", "int("], ["s", ["nt", "<a>"]], ["s", rng.choice([".", ".."])], ["s", ["nt", "<b>"]], ["code", ")"]]]
+            num = lambda: ["num", rng.choice([0, 1, 2, cap, cap + 1])]   # noqa: E731
+            out.append(["{c", rng.choice([["single", e[1]], ["range", e, None], ["range", None, e], ["range", num(), e], ["range", e, num()],
+                                          ["range", e, e], ["range", None, None], ["range", None, num()]])])
         else:
             out.append(rng.choice(["(", ")"]))
     if rng.random() < 0.6:
@@ -804,13 +825,13 @@ def token_phase(ctx: Ctx, n_cases: int) -> None:
         cases.append(toks)
     ans = driver_ask("drv_print", [{"op": "read", "cap": ctx.cap, "toks": t} for t in cases])
     for toks, a in zip(cases, ans):
-        text = render(toks, lambda lf: repr(leaf_val(lf)) if lf[0] != "i" else str(lf[1]), lambda i: "r'[a-z]+'")
+        text = render_e(toks, lambda lf: repr(leaf_val(lf)) if lf[0] != "i" else str(lf[1]), lambda i: "r'[a-z]+'")
         spec = "<start> ::= " + text + "\n" + rule_defs()
         try:
             sp = read_real(spec)
             from fandango.language.symbols import NonTerminal
             t2 = gio.RegexTable()
-            real = canon(gio.node_to_json(sp.grammar.rules[NonTerminal("<start>")], t2), t2.patterns, True)
+            real = canon(enode_json(sp.grammar.rules[NonTerminal("<start>")], t2), t2.patterns, True)
             kind = "accept"
         except Exception as e:  # noqa
             real, kind = None, "reject:" + reject_kind(e)
@@ -970,12 +991,20 @@ def read_symbol_text(text: str):
     return ("regex" if sym.is_regex else "plain", gio.terminal_payload(sym))
 
 
+def corpus_file() -> dict:
+    from harness.common import VERIF
+    with open(VERIF / "corpus" / PID / "cases.json", encoding="utf-8") as fh:
+        return json.load(fh)
+
+
 def regex_phase(ctx: Ctx, n_cases: int) -> None:
     run = ctx.run
     rng = run.rng("regexes")
+    corpus = corpus_file()
     from fandango.language.symbols import Terminal
     pats: list[Any] = list(REGEXES) + list(REGEXES_MIXED) + ["x'y\"z\\\\", "\\\\", "\\\\\\\\", "é'\"", "a\nb", b"\\\xff'\"", b"\n'", "'\\\"",
                                                               "a\\\n'\"", "a" + Q3S + "b", Q3S + Q3D]
+    pats = [cps_pat(cps, b) for b, cps in corpus["regex_patterns"]] + pats
     pats += ["a\x0cb", "\x0c'\""]                                                    # C15/regex-formfeed
     pats += ["(?x)a # it's \"c\"\n b", "(?x)a\n b", b"(?x)a\tb", b"(?x)a # c\n b"]     # C15/regex-verbose-whitespace
     for _ in range(n_cases):
@@ -1049,7 +1078,7 @@ def regex_phase(ctx: Ctx, n_cases: int) -> None:
         else:
             run.count("regex_rewritten_same_denotation")
     # (R') the reader on mutated literal texts: model evalRaw vs the real front end
-    muts: list[str] = []
+    muts: list[str] = list(corpus["raw_texts"])
     alphabet = ["'", '"', "\\", "a", "r", "b", "R", "B", "u", "é", "\t", "\x0c", " ", "\\'", "''", "x"]
     for text, p in texts:
         for _ in range(2):
@@ -1301,7 +1330,7 @@ def selector_phase(ctx: Ctx, n_cases: int) -> None:
     tops: list[tuple] = []
     for src in ["<a>.<b>", "<a>..<b>.<c>", "<a>[0]", "<a>[:2]", "<a>[2:]", "<a>[::2]", "<a>[:]", "<a>[1:2:3]", "<a>[0, 1:]", "<a>{*<b>}",
                 "<a>{*<b>: 1, *<c>: :2}", "*<a>.<b>", "|<a>..<c>|", "len(*<start>.<a>)", "<a>.(<b>.<c>)", "(<a>.<b>)[0]", "(<a>..<b>){*<c>}",
-                "<a>.(<b>..<c>[0]).<c>", "((<a>))"]:
+                "<a>.(<b>..<c>[0]).<c>", "((<a>))"] + corpus_file()["selector_sources"]:
         r = read_selector_text(src)
         if r[0] != "sel":
             raise MachineryError(f"selector source {src!r} is not read as a selector: {r[:2]}")
@@ -2167,6 +2196,22 @@ def replay(path: str) -> int:
                     bad.append(f"verdict on {w!r}: original {x}, re-read {y}")
         except Exception as e:  # noqa
             bad.append(f"printed constraint rejected: {type(e).__name__}: {str(e)[:200]}")
+    elif kind == "selector":
+        real = build_top(rp["term"])
+        text = real.format_as_spec()
+        print("selector:", text)
+        rr = read_selector_text(text)
+        if rr[0] != "sel":
+            bad.append(f"printed selector {text!r} is not read back as a selector: {rr[:2]}")
+        else:
+            with quiet(), warnings.catch_warnings():
+                warnings.simplefilter("ignore")
+                g, _ = gio.parse_spec(SEL_GRAMMAR)
+            for w in SEL_WORDS:
+                tr = g.parse(w)
+                if tr is not None and found(real, tr) != found(rr[2], tr):
+                    bad.append(f"on {w!r} the search finds {str(found(real, tr))[:150]}, the re-read one {str(found(rr[2], tr))[:150]}")
+                    break
     elif kind == "regex":
         from fandango.language.symbols import Terminal
         p = pat_unshow(rp["pattern"])
@@ -2286,8 +2331,8 @@ def main(tier: str) -> int:
         for name, fn in (("tokens", lambda: token_phase(ctx, 500 if quick else 5000)),
                          ("literals", lambda: literal_phase(ctx, 400 if quick else 6000)),
                          ("regexes", lambda: regex_phase(ctx, 500 if quick else 6000)),
-                         ("selectors", lambda: selector_phase(ctx, 400 if quick else 5000)),
-                         ("payloads", lambda: payload_phase(ctx, 60 if quick else 800)),
+                         ("selectors", lambda: selector_phase(ctx, 300 if quick else 4000)),
+                         ("payloads", lambda: payload_phase(ctx, 50 if quick else 700)),
                          ("specs", lambda: spec_phase(ctx, 150 if quick else 1500, tmpdir)),
                          ("words", lambda: word_phase(ctx, 40 if quick else 400)),
                          ("constraints", lambda: constraint_phase(ctx, 120 if quick else 1500))):
@@ -2317,7 +2362,13 @@ def main(tier: str) -> int:
              "str/bytes regexes; party-annotated nonterminals; all operators nested to depth 4, 30% with singleton groups "
              "(constructor-only shapes); built from the real node classes, printed, re-read by the real front end; languages "
              "compared on sampled+mutated child sequences by the verified matcher.  (tokens) random token strings, mostly "
-             "ill-formed, model reader vs real front end.  (literals) repr/eval model vs CPython and vs the real lexer.  "
+             "ill-formed (incl. computed brace groups), model reader vs real front end.  (literals) repr/eval model vs CPython "
+             "and vs the real lexer.  (regexes) str/bytes patterns from units with both quote kinds, backslash pairs (also at "
+             "the end), line breaks, form feeds, non-ASCII, verbose-mode prefixes: printer, reader (also on mutated literal "
+             "texts) and the `re` oracle instances.  (selectors) search terms of every class, flat / parenthesised-source / "
+             "unprintable shapes, slices with omitted bounds, `*`, `|..|`, `len(*..)`: printer, reader (also on mutated token "
+             "strings), real find() of original vs re-read search on 7 trees.  (payloads) specs with computed repetition "
+             "bounds {e} {n,e} {e,n} {e,} {,e} {e,e} over 10 selector forms and generators with symbol arguments.  "
              "(specs) multi-rule specs with python code, parties, generators, computed repetitions via repr(grammar) and "
              "`fandango convert`.  (words) real parse() verdicts of both grammars.  (constraints) template constraints, "
              "verdicts of real check() on 14 inputs.  A node case is non-trivial when a postfix operator applies to a group, "
